@@ -328,6 +328,36 @@ def r7_end_of_work(ctx: Context) -> None:
     ctx.floor("C05.R7", "out-of-work SIMULATOR_END constructions", n_work, 1)
 
 
+def r9_timeout_handed_over(ctx: Context) -> None:
+    ctx.rule("C05.R9", "every call of the next-scheduler routine binds its formal parameters to the simulator's own settings: "
+                       "loop_timeout <- self._loop_timeout (a missing argument falls back to sys.maxsize: the run ignores the "
+                       "configured timeout), scheduler_frequency <- self._scheduler_frequency, last start <- self._last_scheduler_start_time")
+    sim = Sim(ctx.repo)
+    nxt = _next_sched(sim)
+    formals = [a.arg for a in nxt.args.args][1:]
+    want = {"loop_timeout": "self._loop_timeout", "scheduler_frequency": "self._scheduler_frequency",
+            "last_scheduler_start_time": "self._last_scheduler_start_time"}
+    n = 0
+    for m in sim.methods.values():
+        for c in calls_in(m):
+            if not (is_self_attr(c.func) and c.func.attr == nxt.name):
+                continue
+            n += 1
+            bound = {}
+            for i, a in enumerate(c.args):
+                if i < len(formals):
+                    bound[formals[i]] = norm(a)
+            for k in c.keywords:
+                if k.arg:
+                    bound[k.arg] = norm(k.value)
+            for formal, actual in want.items():
+                if formal not in formals:
+                    raise AnalysisError(f"next-scheduler routine lost its `{formal}` parameter")
+                ctx.check(bound.get(formal) == actual, "C05.R9", f"{qualname(m)}|{formal} <- {actual}", loc(c), "bound",
+                          f"`{formal}` of the next-scheduler routine is bound to `{bound.get(formal, 'its default')}`, not `{actual}`")
+    ctx.floor("C05.R9", "calls of the next-scheduler routine", n, 1)
+
+
 def r4_no_stuck_running(ctx: Context) -> None:
     ctx.rule("C05.R4", "Task.step never answers 'not finished' for a RUNNING task whose remaining time is zero, unless "
                        "its completion was already reported")
@@ -450,3 +480,5 @@ def run(ctx: Context) -> None:
     ctx.isolate(r4_no_stuck_running)
     ctx.isolate(r5_strategy_supplied)
     ctx.isolate(r7_end_of_work)
+    ctx.isolate(r9_timeout_handed_over)
+    ctx.isolate(c03.r7_step_accounting, _alias={"C03.R7": "C05.R8"})
